@@ -2,6 +2,7 @@ package rules
 
 import (
 	"fmt"
+	"go/constant"
 	"go/token"
 	"go/types"
 	"strings"
@@ -196,7 +197,7 @@ func counterCell(v ssa.Value, depth int) *ssa.Alloc {
 }
 
 func returnedCell(call *ssa.Call, idx, depth int) *ssa.Alloc {
-	cal := call.Call.StaticCallee()
+	cal := core.Callee(&call.Call)
 	if cal == nil || len(cal.Blocks) == 0 || depth == 0 {
 		return nil
 	}
@@ -332,4 +333,165 @@ func fieldCounter(c *core.Ctx, rule, fname, fld, pos string, v ssa.Value, cbs ma
 		c.Discharge(rule, fname, fld, pos, "a counter field of the callback's state object, incremented exactly once per record delivered with a nil error, never on an error")
 	}
 	return true
+}
+
+// ruleDayDistances is C07-R7: every day distance that stats prints is the whole number of 24-hour days between the
+// supplied current date and a date of the log, truncated: int(now.Sub(d).Hours()/24) or an equivalent spelling.
+// Rounding (adding half a day), ceiling or a distance taken the other way round gives a figure that differs from the
+// one computed from --today and the headings.
+func ruleDayDistances(c *core.Ctx, rule string) {
+	statsPkg := core.CmdPath + "/internal/stats"
+	n := 0
+	for _, fn := range c.P.Funcs {
+		if core.FnPkgPath(fn) != statsPkg || fn.Parent() != nil || !callsPrefix(fn, "fmt.Fprint") || !reachesAny(fn, 2, "(time.Time).Sub") {
+			continue
+		}
+		fname := core.FuncName(fn)
+		x := newExec(c)
+		var bad []string
+		seen := map[string]bool{}
+		x.Hooks.Call = func(x *absint.Exec, s *absint.State, site ssa.CallInstruction, callee *ssa.Function, fnv absint.Value, args []absint.Value) (absint.Value, bool) {
+			if callee == nil || !strings.HasPrefix(callee.String(), "fmt.Fprint") || len(args) == 0 {
+				return nil, false
+			}
+			t, ok := args[len(args)-1].(*absint.Term)
+			if !ok || t.Op != "slice" {
+				return nil, false
+			}
+			p, ok := t.Args[0].(absint.Ptr)
+			if !ok {
+				return nil, false
+			}
+			_ = p
+			for _, hv := range printedLeaves(s, args[len(args)-1], 0) {
+				if !absint.Mentions(hv, "(time.Time).Sub") && !strings.Contains(hv.Key(), "(time.Time).Sub") {
+					continue
+				}
+				pos := c.P.Pos(site.Pos())
+				if seen[pos+hv.Key()] {
+					continue
+				}
+				seen[pos+hv.Key()] = true
+				n++
+				c.Universe(rule+" day distances", fname+" ("+pos+"): "+hv.Key())
+				if why := wholeDays(x, hv); why != "" {
+					bad = append(bad, pos+": "+why)
+				}
+			}
+			return nil, false
+		}
+		x.Run(x.NewState(fn, nil, nil))
+		if !account(c, x, rule, fn) {
+			continue
+		}
+		bad = uniq(bad)
+		if len(bad) == 0 && len(seen) > 0 {
+			c.Discharge(rule, fname, "day-distances", c.P.Pos(fn.Pos()), fmt.Sprintf("%d printed distances are truncated whole days from the supplied current date to a date of the log", len(seen)))
+		}
+		for _, m := range bad {
+			c.Violate(rule, fname, "day-distances", c.P.Pos(fn.Pos()), m, nil)
+		}
+	}
+	if n == 0 {
+		c.Undecide(rule, "stats", "universe", "-", "stats prints no value computed from a difference of dates", nil)
+	}
+}
+
+func callsPrefix(fn *ssa.Function, prefix string) bool {
+	for _, b := range fn.Blocks {
+		for _, in := range b.Instrs {
+			if ci, ok := in.(ssa.CallInstruction); ok {
+				if cal := core.Callee(ci.Common()); cal != nil && strings.HasPrefix(cal.String(), prefix) {
+					return true
+				}
+			}
+		}
+	}
+	return false
+}
+
+// wholeDays: "" when v is int(A.Sub(B).Hours()/24) (or int(A.Sub(B)/(24h))) with A the current date of the options
+// and B a date of the log; otherwise what is wrong with it.
+func wholeDays(x *absint.Exec, v absint.Value) string {
+	for _, f := range []string{"math.Floor", "math.Trunc"} {
+		if ft, ok := termCall(v, f); ok && len(ft.Args) == 1 {
+			v = ft.Args[0]
+		}
+	}
+	t, ok := v.(*absint.Term)
+	if !ok || t.Op != "/" || len(t.Args) < 2 {
+		return "the distance printed is " + v.Key() + ", not the truncated quotient of a difference of dates by one day: rounding or shifting it changes the figure for some pairs of dates"
+	}
+	var sub *absint.Term
+	div := intConst(t.Args[1])
+	if fc, ok := t.Args[1].(absint.Const); ok && fc.V != nil && div == 1<<40 {
+		if f, exact := constant.Float64Val(constant.ToFloat(fc.V)); exact && f == float64(int64(f)) {
+			div = int64(f)
+		}
+	}
+	if h, ok := termCall(t.Args[0], "(time.Duration).Hours"); ok && len(h.Args) == 1 && div == 24 {
+		sub, _ = termCall(h.Args[0], "(time.Time).Sub")
+	} else if sb, ok := termCall(t.Args[0], "(time.Time).Sub"); ok && div == 24*3600*1000000000 {
+		sub = sb
+	}
+	if sub == nil || len(sub.Args) != 2 {
+		return "the distance printed is " + v.Key() + ", not hours/24 (or duration/24h) of a difference of dates"
+	}
+	where := func(a absint.Value) string {
+		if st, ok := a.(*absint.Struct); ok && len(st.Fields) > 0 {
+			l := locOf(x, st.Fields[0])
+			if i := strings.LastIndex(l, "·"); i >= 0 {
+				return l[:i]
+			}
+			return l
+		}
+		// a field of a structure held by value: field(field(sr,"stats"),"Now")
+		if ft, ok := a.(*absint.Term); ok && ft.Op == "field" && len(ft.Args) == 2 {
+			if cst, ok := ft.Args[1].(absint.Const); ok && cst.V != nil && cst.V.Kind() == constant.String {
+				return ft.Args[0].Key() + "·" + constant.StringVal(cst.V)
+			}
+		}
+		return locOf(x, a)
+	}
+	from, to := where(sub.Args[0]), where(sub.Args[1])
+	switch {
+	case strings.HasSuffix(to, "·Now") && !strings.HasSuffix(from, "·Now"):
+		return "the distance is taken from the current date back to itself the wrong way round (" + from + " minus the current date): days ago come out negative"
+	case !strings.HasSuffix(from, "·Now"):
+		return "the distance is not counted from the supplied current date but from " + from
+	case strings.HasSuffix(to, "·Now"):
+		return "the distance is the current date minus itself"
+	}
+	return ""
+}
+
+// printedLeaves: the values a print call writes — the cells of its variadic list, and for a cell that is itself
+// the result of fmt.Sprintf (a line or a column built by a helper) the values that call formatted.
+func printedLeaves(s *absint.State, v absint.Value, depth int) []absint.Value {
+	if iv, ok := v.(*absint.Iface); ok {
+		v = iv.V
+	}
+	t, ok := v.(*absint.Term)
+	if !ok || depth > 3 {
+		return []absint.Value{v}
+	}
+	switch {
+	case t.Op == "slice" && len(t.Args) > 0:
+		p, ok := t.Args[0].(absint.Ptr)
+		if !ok {
+			return []absint.Value{v}
+		}
+		var out []absint.Value
+		for i := 0; i < 12; i++ {
+			hv, ok := s.Heap[fmt.Sprintf("%s[c:%d]", p.Loc, i)]
+			if !ok {
+				break
+			}
+			out = append(out, printedLeaves(s, hv, depth+1)...)
+		}
+		return out
+	case (t.Op == "call:fmt.Sprintf" || t.Op == "call:fmt.Sprint" || t.Op == "call:fmt.Sprintln") && len(t.Args) >= 1:
+		return printedLeaves(s, t.Args[len(t.Args)-1], depth+1)
+	}
+	return []absint.Value{v}
 }
